@@ -1,0 +1,30 @@
+//go:build verif
+
+package expressions
+
+// Contracts for the verification machinery in /verif (govc). Comment-only file:
+// compiled only with -tags verif, and even then it contains no code.
+
+//@ interface expressions.Expression
+//@ method Evaluate
+//@ assigns nothing
+
+//@ func expressions.Constant$1
+//@ expect func(_ expressions.Context) (any, error)
+//@ props C10 C01
+//@ panics nothing
+//@ assigns nothing
+//@ ensures constant: result0 == k && result1 == nil
+
+//@ func expressions.Not$1
+//@ expect func(ctx expressions.Context) (any, error)
+//@ props C10 C01
+//@ panics nothing
+//@ assigns nothing
+//@ requires args: e != nil
+//@ ghost inner Val = nil
+//@ ghost innerErr Val = nil
+//@ at call Evaluate #1: inner = result0
+//@ at call Evaluate #1: innerErr = result1
+//@ ensures negation: innerErr == nil ==> result1 == nil && result0 == box(inner == nil || inner == box(false))
+//@ ensures error: innerErr != nil ==> result1 == innerErr && result0 == nil
